@@ -5,6 +5,18 @@ const tsDriver = `
 // ---- verification driver (epilogue)
 const verifCodes :number[] = [@CODES@];
 const verifBadCode = @BADCODE@;
+const verifBadCodes :number[] = (() => {
+	const decl = new Set<number>([@EOFCODE@, -1]);
+	let max = 0;
+	for (const c of verifCodes) { decl.add(c); if (c > max) { max = c; } }
+	const out :number[] = [verifBadCode];
+	for (let c = max + 1; c <= max+@NNT@+4; c++) { out.push(c); }
+	let n = 0;
+	for (let c = 0; c < 400 && n < 3; c++) {
+		if (!decl.has(c)) { out.push(c); n++; }
+	}
+	return out;
+})();
 let verifLog :number[] = [];
 let verifFetchLog :number[] = [];
 let verifFetched = 0;
@@ -35,7 +47,7 @@ function GetToken(input :string, model:{ValType :ValType, pos :number}) :number 
 	const p = model.pos;
 	model.pos++;
 	if (c == 63) {
-		return verifBadCode;
+		return verifBadCodes[(p*31+input.length*7)%verifBadCodes.length];
 	}
 	const k = c - 64;
 	model.ValType = new ValType();
